@@ -11,6 +11,7 @@ import (
 	"context"
 	"errors"
 	"io"
+	"runtime/debug"
 	"sync"
 	"time"
 
@@ -92,6 +93,9 @@ type Net struct {
 	OnFrame func(f *Frame)
 	// Log of every frame ever created (including injected ones).
 	All []*Frame
+	// OnPanic, if set, receives a panic that escapes a registered stream handler (production runs the handler
+	// without recover: such a panic ends the process). nil = the panic propagates and ends the test binary.
+	OnPanic func(f *Frame, r any, stack []byte)
 }
 
 func New() *Net { return &Net{hosts: map[peer.ID]*Host{}} }
@@ -166,7 +170,16 @@ func (n *Net) Deliver(f *Frame) bool {
 		return false
 	}
 	s := &serverStream{frame: f, rd: bytes.NewReader(f.Req), local: f.To}
+	onPanic := n.OnPanic
 	go func() {
+		if onPanic != nil {
+			defer func() {
+				if r := recover(); r != nil {
+					onPanic(f, r, debug.Stack())
+					f.finish(nil, true)
+				}
+			}()
+		}
 		handler(s)
 		s.Close()
 	}()
